@@ -220,3 +220,36 @@ def check_estimator_forms(run, ctx, rule='C05-S2'):
             run.bad(rule, st + '/fail-closed', 'fail-closed: no MemoryEstimator impl found for %s' % st)
     run.require(rule, 'estimator impls normalised', len(seen), len(REFERENCE))
     return n
+
+
+def check_estimator_lower_bound(run, ctx, rule='C16-R3'):
+    """the wrappers' estimators compute `inner.estimate_memory() - size_of_val(inner)` with a checked subtraction (a panic in
+    debug builds, a wrap-around in release builds): it is safe because every estimator of the library returns at least the
+    inline size of its value, i.e. `sz<Self>` is a summand of its normal form"""
+    n = 0
+    for body in ctx.core.bodies.values():
+        if body.kind != 'assoc_fn' or not body.name.endswith('::estimate_memory'):
+            continue
+        if body.js.get('impl_trait') == TRAIT:
+            st = body.impl_self
+        elif body.name == EST:
+            st = '<default>'
+        else:
+            continue
+        n += 1
+        nm = Norm(ctx.prog, st if st != '<default>' else 'Self')
+        ex = nm.ex(body)
+        bad = []
+        for d in body.defs.get(0, []):
+            t = nm.norm(body, ex._def(d, 0), {1: 'self'})
+            terms = t[1] if t[0] == 'sum' else [t]
+            if ('sz', 'Self') not in terms:
+                bad.append(fmt(t))
+        if bad:
+            run.bad(rule, st + '/below-inline-size', 'MemoryEstimator for %s can return less than size_of_val(self) (%s): Option / Result / tuple / Vec / CacheEntry estimators subtract '
+                    'size_of_val from the estimate of their component, which then underflows (panic with overflow checks, a huge size otherwise)' % (st, '; '.join(bad)),
+                    site=body.name, oracle='estimate = size_of::<Self>() + non-negative terms')
+        else:
+            run.ok(rule, st, 'estimate >= size_of::<Self>()')
+    run.require(rule, 'library estimators', n, 13)
+    return n
